@@ -107,6 +107,7 @@ let run_query ix = function
   | L [A "tfr"; t; lo; hi] -> of_api of_nl (M.termfreqs_range ix (to_n t) (to_option to_n lo) (to_option to_n hi))
   | L [A "phraser"; ts; lo; hi] -> of_api of_nl (M.phrase_freqs_range ix (nl ts) (to_option to_n lo) (to_option to_n hi))
   | L [A "slop"; ts; sl] -> of_api of_nl (M.slop_freqs ix (nl ts) (to_n sl))
+  | L [A "slopv"; ts; sl] -> of_api of_nl (M.slop_freqs_v ix (nl ts) (to_n sl))
   | L [A "lens"] -> L [A "ok"; of_nl (M.doclengths ix)]
   | L [A "n"] -> L [A "ok"; of_n (M.corpus_size ix)]
   | L [A "total"] -> L [A "ok"; of_n (M.total_len ix)]
